@@ -116,6 +116,38 @@ fn texts(t: FT) -> Vec<(String, Option<J>)> {
 		}
 		FT::Other => {}
 	}
+	// one inserted character at every position of a few valid numbers (digit separators, signs, exponents,
+	// blanks, suffixes): accepted exactly when the type's own `FromStr` takes the text, with that value
+	if matches!(t, FT::Int | FT::Float) {
+		let bases: &[&str] = if t == FT::Int { &["5", "12", "254"] } else { &["0.5", "2.5", "15", "1e-3", "-1.25"] };
+		for b in bases {
+			let chars: Vec<char> = b.chars().collect();
+			for pos in 0..=chars.len() {
+				for ins in ['_', ' ', '+', '-', '.', ',', 'e', 'E', '0', 'x', '\'', 'f', 'u', '\u{a0}', '٣', '\n'] {
+					let mut x = chars.clone();
+					x.insert(pos, ins);
+					let txt: String = x.into_iter().collect();
+					if v.iter().any(|e| e.0 == txt) {
+						continue;
+					}
+					let want = if t == FT::Int {
+						match (txt.parse::<u8>(), txt.parse::<u64>()) {
+							(Ok(k), _) => Some(J::from(k)),
+							(Err(_), Ok(_)) => Some(J::Null),
+							_ => None,
+						}
+					} else {
+						match txt.parse::<ValueType>() {
+							Ok(f) if f.is_finite() => Some(J::from(f as f64)),
+							Ok(_) => Some(J::Null),
+							Err(_) => None,
+						}
+					};
+					v.push((txt, want));
+				}
+			}
+		}
+	}
 	for g in garbage {
 		if !v.iter().any(|x| x.0 == g) {
 			v.push((g.into(), None));
